@@ -281,3 +281,73 @@ def inv_job(ctx, job, i=None, require_cached_fresh=True):
     if f["_cached_statepoint"] is not None and require_cached_fresh:
         out.append(("cached state point hashes to _id", CALC(spv_of(f["_cached_statepoint"])) == i))
     return out
+
+
+class SDoc(Sym):
+    """A job/project document handle (dependency object BufferedJSONAttrDict): only its binding (filename, write_concern) and the
+    FS effect of whole-document writes are modelled; dict semantics are the dependency's (C05: assumed, bounded check)."""
+
+    def __init__(self, filename, write_concern):
+        self.filename, self.write_concern = filename, write_concern
+
+    def sym_is(self, ex, other):
+        if other is None:
+            return False
+        return self is other
+
+    def sym_truth(self, ex):
+        raise Unsupported("truthiness of a document handle")
+
+    def sym_getattr(self, ex, name):
+        if name in ("filename", "_filename"):
+            return self.filename
+        if name in ("clear", "reset", "update"):
+            return NativeStub(lambda interp, *a, **k: interp.ctx.doc_write(interp, self, name), f"doc.{name}", wants_ex=True)
+        raise Unsupported(f"document.{name}")
+
+
+def _doc_write(self, interp, doc, what):
+    """dependency contract of a document write: temp file + os.replace in the document's directory"""
+    ex = interp.ex
+    loc = doc.filename
+    fs = self.fs
+    ex.assumptions_used.add("synced_collections document write = atomic replace of the document file (write_concern=True), ENOENT if the directory is gone")
+    if isinstance(loc, LIn):
+        if not ex.decide(fs.dirs[JD.mk(loc.p, loc.i)], "docwrite:dir-exists"):
+            raise self.enoent()
+        self.fault(interp, "doc-write")
+        d = ex.fresh("doccontent", Data)
+        self.effect(interp, f"document {what}", fs.with_node(loc, Node.File(d)))
+        return None
+    if isinstance(loc, LPF):
+        self.fault(interp, "doc-write")
+        d = ex.fresh("doccontent", Data)
+        self.effect(interp, f"project document {what}", fs.with_pf(loc.p, loc.n, Node.File(d)))
+        return None
+    raise Unsupported("document location")
+
+
+JobCtx.doc_write = _doc_write
+
+
+def _instantiate(self, interp, rc, args, kw):
+    return NotImplemented
+
+
+def _native_override(self, interp, f, args, kw):
+    import copy
+    from synced_collections.backends.collection_json import BufferedJSONAttrDict
+    from signac.h5store import H5StoreManager
+    if f is BufferedJSONAttrDict:
+        if args or set(kw) - {"filename", "write_concern"}:
+            raise Unsupported("BufferedJSONAttrDict arguments")
+        return SDoc(kw.get("filename"), kw.get("write_concern", False))
+    if f is copy.deepcopy and len(args) == 1 and isinstance(args[0], SSP):
+        interp.ex.assumptions_used.add("copy.deepcopy returns an equal, unaliased value")
+        return SSP(args[0].e)
+    if f is H5StoreManager:
+        return "h5-store-manager"
+    return NotImplemented
+
+
+JobCtx.native_override = _native_override
